@@ -6,4 +6,6 @@ cd "$(dirname "$0")/.." || exit 2
 ./bin/psv check "$1" --tier thorough
 rc=$?
 python3 tools/mut.py selftest "$1"
+# behaviour-preserving refactors must stay quiet (false-alarm regression)
+python3 tools/benign.py "$1" | sed "s/^/BENIGN: /"
 exit $rc
